@@ -23,15 +23,16 @@ fn spec() -> Spec {
             Kind { name: "single_call", quick: 600_000, thorough: 15_000_000, serial: false },
             Kind { name: "trajectory", quick: 2_000, thorough: 60_000, serial: false },
             Kind { name: "with_shape", quick: 6_000, thorough: 300_000, serial: false },
+            Kind { name: "shared_history", quick: 40_000, thorough: 1_000_000, serial: false },
         ],
-        rule: "single_call: non-degenerate robot (dof 5/6) x pose (FK of q / random SE(3)) x previous in [-2pi,2pi]^6 (generating, shifted by whole turns, uniform) or the CONSTRAINT_CENTERED sentinel x {no limits, wide limits with weight 0 / 1 / random}; inverse_continuing and inverse_continuing_5dof: nearest 2pi-representative per angle, non-decreasing documented cost, superset of plain inverse (same solver), previous-realises-pose => first answer. trajectory: dense joint-space trajectories (sums of sinusoids inside [-2pi,2pi], step <= 0.03 rad/joint, 200..1500 steps, truncated where elbow/shoulder margins < 0.1); each call's previous is the preceding first answer; first answer must track q(t) and its increments. with_shape: the same clauses (nearest representative, cost order, free legal previous first) through KinematicsWithShape on synthetic cells with obstacles on other IK branches (its collision filter runs on the rayon pool). non-trivial = call returned >= 2 answers (single_call) / trajectory of >= 50 tracked steps; distinct = hash(robot, pose/trajectory seed, previous) Workload additions: a quarter of the limit sets installed through update_range histories; wrap-around limit classes whose library centre lies up to 3pi; a joint a hair inside +-pi against a previous of exactly +-0.0; a fifth of the solvers behind Tool / Base / Frame stacks; kind with_shape = the same clauses through KinematicsWithShape (filter on the rayon pool) with obstacles on other IK branches. Rounds 7-9: near-tie previous vectors (midpoint of two adjacent answers nudged by 2e-7 rad); limit sets that leave a single IK branch; previous with a joint exactly on the +-2pi border.",
+        rule: "single_call: non-degenerate robot (dof 5/6) x pose (FK of q / random SE(3)) x previous in [-2pi,2pi]^6 (generating, shifted by whole turns, uniform) or the CONSTRAINT_CENTERED sentinel x {no limits, wide limits with weight 0 / 1 / random}; inverse_continuing and inverse_continuing_5dof: nearest 2pi-representative per angle, non-decreasing documented cost, superset of plain inverse (same solver), previous-realises-pose => first answer. trajectory: dense joint-space trajectories (sums of sinusoids inside [-2pi,2pi], step <= 0.03 rad/joint, 200..1500 steps, truncated where elbow/shoulder margins < 0.1); each call's previous is the preceding first answer; first answer must track q(t) and its increments. with_shape: the same clauses (nearest representative, cost order, free legal previous first) through KinematicsWithShape on synthetic cells with obstacles on other IK branches (its collision filter runs on the rayon pool). non-trivial = call returned >= 2 answers (single_call) / trajectory of >= 50 tracked steps; distinct = hash(robot, pose/trajectory seed, previous) Workload additions: a quarter of the limit sets installed through update_range histories; wrap-around limit classes whose library centre lies up to 3pi; a joint a hair inside +-pi against a previous of exactly +-0.0; a fifth of the solvers behind Tool / Base / Frame stacks; kind with_shape = the same clauses through KinematicsWithShape (filter on the rayon pool) with obstacles on other IK branches. Rounds 7-9: near-tie previous vectors (midpoint of two adjacent answers nudged by 2e-7 rad); limit sets that leave a single IK branch; previous with a joint exactly on the +-2pi border. Round 10: kind shared_history = two or three 6-DOF robots (one parameter apart, or unrelated) asked the bit-identical pose and previous vector in turn on one thread (for each pose, for each robot): each continuation answer contains that robot's own plain solutions, nearest representatives, ordered.",
         assumptions: vec![
             "cost = (1-w)*sum|s-prev| + w*sum|s-centre|, w=0 without limits; prev := constraint centres (zeros without limits) for the sentinel",
             "ties: an angle exactly pi away from previous may take either representative (tolerance 1e-9)",
             "'previous realises the pose => first answer' is evaluated for weight 0 / no limits, previous compliant, and wrist/elbow/shoulder measures >= 1e-3",
             "inside the 0.01 degree wrist band J4/J6 are compared through their model-angle sum (t5~0) or difference (t5~pi)",
         ],
-        minimums: vec![("oracle_evals", 3_000_000, 80_000_000), ("trajectory_steps_tracked", 150_000, 5_000_000), ("pi_crossings_tracked", 500, 20_000), ("with_shape.lists_of_three_or_more", 1_000, 50_000), ("with_shape.previous_came_back_first", 1_000, 50_000)],
+        minimums: vec![("oracle_evals", 3_000_000, 80_000_000), ("trajectory_steps_tracked", 150_000, 5_000_000), ("pi_crossings_tracked", 500, 20_000), ("with_shape.lists_of_three_or_more", 1_000, 50_000), ("with_shape.previous_came_back_first", 1_000, 50_000), ("history.steps", 150_000, 4_000_000)],
     }
 }
 
@@ -52,8 +53,70 @@ fn run_case(kind: &str, idx: u64, rng: &mut Rng, mon: &mut Mon, _tier: Tier) {
         trajectory(idx, rng, mon);
     } else if kind == "with_shape" {
         with_shape(idx, rng, mon);
+    } else if kind == "shared_history" {
+        shared_history(idx, rng, mon);
     } else {
         single(idx, rng, mon);
+    }
+}
+
+/// History workload ("for each pose, for each robot"): two or three robots that differ in one parameter - or are
+/// unrelated - are asked for the bit-identical pose with the bit-identical previous vector one after the other on
+/// the same thread. Each continuation answer must contain what that robot's own plain solver finds, as nearest
+/// representatives, in order of distance to previous.
+fn shared_history(idx: u64, rng: &mut Rng, mon: &mut Mon) {
+    let first = gen_robot(rng, idx, RobotMode::NonDegenerate, 0.0);
+    let mut rps = vec![first.rp];
+    for k in 0..(1 + rng.usize(2)) {
+        let mut r = first.rp;
+        match rng.usize(6) {
+            0 => { let j = rng.usize(6); r.signs[j] = -r.signs[j]; }
+            1 => r.offsets[rng.usize(6)] += *rng.pick(&[PI / 2.0, -PI / 2.0, 0.3, PI]),
+            2 => r.c4 += rng.range(0.01, 0.1),
+            3 => r.c2 *= rng.range(0.8, 1.25),
+            4 => r.a1 += rng.range(-0.1, 0.1),
+            _ => r = gen_robot(rng, idx + 1 + k as u64, RobotMode::NonDegenerate, 0.0).rp,
+        }
+        rps.push(r);
+    }
+    let kins: Vec<OPWKinematics> = rps.iter().map(|r| OPWKinematics::new(to_params(r))).collect();
+    let n = rps.len();
+    for _ in 0..(1 + rng.usize(3)) {
+        let q = joints_uniform(rng, PI);
+        let pose = fr_to_iso(&fk(&rps[rng.usize(n)], &q));
+        let prev = if rng.bool(0.5) { q } else { joints_uniform(rng, 2.0 * PI) };
+        for step in 0..(n + 1 + rng.usize(2)) {
+            let r = step % n;
+            let sols = kins[r].inverse_continuing(&pose, &prev);
+            let plain = kins[r].inverse(&pose);
+            mon.count("history.steps");
+            let detail = |extra: serde_json::Value| json!({"robots": rps.iter().map(|r| json!({"a1": r.a1, "a2": r.a2, "b": r.b, "c1": r.c1, "c2": r.c2, "c3": r.c3, "c4": r.c4, "offsets": r.offsets, "signs": r.signs})).collect::<Vec<_>>(), "robot_index": r, "step": step, "q": jf(&q), "prev": jf(&prev), "answers": sols.iter().map(|s| jf(s)).collect::<Vec<_>>(), "extra": extra});
+            let mut ok = true;
+            for p in &plain {
+                if !sols.iter().any(|s| (0..6).all(|j| circ_dist(s[j], p[j]) <= 1e-9)) {
+                    ok = false;
+                    mon.violation("history:plain-solution-missing", "after another robot was asked for the same pose: a solution of this robot's plain solver is missing from its continuation answer", detail(json!({"missing": jf(p)})));
+                    break;
+                }
+            }
+            if sols.iter().any(|s| (0..6).any(|j| (s[j] - prev[j]).abs() > PI + 1e-9)) {
+                ok = false;
+                mon.violation("history:not-nearest-representative", "after another robot was asked for the same pose: an angle is not the representative nearest to previous", detail(json!({})));
+            }
+            for k in 1..sols.len() {
+                if cost(&sols[k - 1], &prev, &[0.0; 6], 0.0) > cost(&sols[k], &prev, &[0.0; 6], 0.0) + 1e-9 {
+                    ok = false;
+                    mon.violation("history:not-ordered", "after another robot was asked for the same pose: the answers are not in order of distance to previous", detail(json!({"k": k})));
+                    break;
+                }
+            }
+            if ok {
+                mon.held_n(1 + plain.len() as u64);
+            }
+            if !sols.is_empty() {
+                mon.nontrivial(hash_combine(hash_f64s(&q), hash_f64s(&[rps[r].c4, rps[r].offsets[0], rps[r].a1, r as f64])));
+            }
+        }
     }
 }
 
